@@ -113,7 +113,11 @@ fn main() {
         let label = cfg.label.clone();
         let t0 = std::time::Instant::now();
         let model = match CfModel::new(cfg.clone(), Mode::Elements, true) {
-            Ok(m) => m,
+            Ok(mut m) => {
+                m.with_union = true; // unions with fixed right operands anywhere inside the sequences (union, then delete, ...)
+                m.lookahead = cfg.budget == Some(1) && cfg.bucketsize * cfg.n_buckets <= 4;
+                m
+            }
             Err(e) => return Err((label, e)),
         };
         let ex = cuckoo::explore(&model, false, 400_000, 1);
